@@ -116,6 +116,12 @@ func runC11Resume(cs C11Case, x *kit.Ctx) {
 		s, err := c11OpenSess(wk, path, f, gi, roots, o.List())
 		x.Eval(1)
 		x.Transition(len(names) + 2)
+		if err != nil && gi == 0 {
+			// a fresh, empty file: the library refuses this option set before any session exists. Which option
+			// combinations a writer accepts is not part of the statement (no writing session, nothing to flatten)
+			x.Outcome("beyond-statement:resume-first-session-refused:" + wk)
+			return
+		}
 		if err != nil {
 			x.Fail("c11:resume-write:"+wk, "generation %d: the file left by generation %d cannot be opened for writing with the same roots and options: %v", gi, gi-1, err)
 			return
@@ -245,6 +251,12 @@ func c11ResumeOracle(x *kit.Ctx, cs C11Case, gi int, wk string, file []byte, o d
 	// CARv2: what Finalize embedded is the session index as the library flattened it; the whole of the
 	// single-generation oracle applies to it (codec, canonical index of the payload, lookups and bytes against
 	// the regenerated index, the library's own IndexReader window)
+	if !f.HasIndex && len(recs) == 0 {
+		// nothing to index: whether an empty index is attached is not part of the statement (the flattened
+		// session index and the regenerated one were compared above)
+		x.Outcome("beyond-statement:finished-carv2-of-empty-session-without-index")
+		return
+	}
 	if !f.HasIndex {
 		x.Fail("c11:resume-decode:"+tag, "finished CARv2 of generation %d carries no index", gi)
 		return
